@@ -138,6 +138,13 @@ def extra_obligations(reg):
     wa_par = walk_args(it_par, {'dir_in': 'DIR_IN', 'dir_out': 'DIR_OUT'})
     out.append(dict(name='WriteLAS.py:batch/same-directory-walk', pc=[], goal=z3.BoolVal(wa_seq == wa_par),
                     note='dirWalk arguments apart from bigFirst: %s vs %s' % (wa_seq, wa_par), func='convert_dir_or_file_to_las_multiprocessing'))
+    # one result per input file: nothing the walk yields is filtered out before it is converted
+    gens = comps[0].generators
+    out.append(dict(name='WriteLAS.py:batch/every-walked-file-becomes-a-task', pc=[], goal=z3.BoolVal(len(gens) == 1 and not gens[0].ifs),
+                    note='the task list comprehension has one generator and no condition (%s)' % ast.unparse(comps[0])[:160],
+                    func='convert_dir_or_file_to_las_multiprocessing'))
+    out.append(dict(name='WriteLAS.py:batch/every-walked-file-is-converted-sequentially', pc=[], goal=z3.BoolVal(assigns[0] in loops[0].body),
+                    note='the conversion call is an unconditional statement of the directory loop', func='convert_dir_or_file_to_las'))
     out.append(dict(name='WriteLAS.py:batch/canary', pc=[], goal=c('FILE.filePathIn') == c('FILE.filePathOut'),
                     note='must fail: distinct source expressions are distinct terms', func='convert_dir_or_file_to_las_multiprocessing', expect_fail=True))
     return out
